@@ -157,9 +157,12 @@ func (e *Engine) verifyFunction(c *Contract, init *State) (res *FuncResult) {
 	}
 	for _, cl := range c.Ensures {
 		g := e.evalClause(nil, cl, args, resArgs, out, entry, pcOut)
+		n0 := len(e.obls)
 		e.addObl(nil, "ensures", cl.Label, cl.Props, pcOut, g, fmt.Sprintf("%s:%d", strings.TrimPrefix(c.File, "/repo/"), cl.Line))
-		e.obls[len(e.obls)-1].contract = c
-		e.obls[len(e.obls)-1].clause = cl
+		for _, o := range e.obls[n0:] {
+			o.contract = c
+			o.clause = cl
+		}
 	}
 	// vacuity guards: the preconditions are satisfiable and a normal exit is reachable
 	e.addCover("cover", "pre", True)
